@@ -178,27 +178,31 @@ def r03_4(ctx):
     prog = ctx.prog()
     f = prog.find("Parser::parse_literal_visit")
     want = {116: ("visit_bool", 1), 102: ("visit_bool", 0), 110: ("visit_null", None)}
-    # the dispatch that selects the visitor call
+    # for each literal's first byte: the visitor call that is reached with that byte, and its argument, under constant
+    # propagation from the arm of the byte dispatch (the value may be selected as data - `(tail, Some(true))` - and the
+    # visitor chosen by a later match on it)
+    from ..analysis import cp_walk, cp_value, bool_chain_env
     done = set()
     for b, t in f.terms():
-        if t["k"] == "switch" and t.get("dty") == "u8":
-            for v, tgt in t["targets"]:
-                v = int(v)
-                if v not in want:
-                    continue
-                # first visitor call reachable from this arm before any other arm's target
-                others = {x[1] for x in t["targets"] if x[1] != tgt} | {t["otherwise"]}
-                calls = [(bb, tt) for bb, tt in f.calls() if tt["callee"].rsplit("::", 1)[-1].startswith("visit_") and bb in f.reachable_from(tgt, avoid=others)]
-                if not calls:
-                    continue
-                if len({(c[1]["callee"], op_int(c[1]["args"][1]) if len(c[1]["args"]) > 1 else None) for c in calls}) != 1:
-                    continue  # not the dispatch that selects the visitor call (e.g. the literal-tail selection)
-                bb, tt = calls[0]
-                nm = tt["callee"].rsplit("::", 1)[-1]
-                arg = op_int(tt["args"][1]) if len(tt["args"]) > 1 else None
-                ok = (nm, arg) == want[v] and len({c[1]["callee"] for c in calls}) == 1
-                done.add(v)
-                ctx.ob("R03.4", f"literal:{chr(v)}", ok, f.loc(tt["ln"]), f"first byte {chr(v)!r} -> {nm}({arg if arg is not None else ''})")
+        if t["k"] != "switch" or t.get("dty") != "u8" or op_local(t["discr"]) is None:
+            continue
+        for v, tgt in t["targets"]:
+            v = int(v)
+            if v not in want or v in done:
+                continue
+            outs = cp_walk(f, tgt, env=bool_chain_env(f, op_local(t["discr"]), v))
+            seen_calls = set()
+            for bb, tt in f.calls():
+                if bb in outs and tt["callee"].rsplit("::", 1)[-1].startswith("visit_"):
+                    arg = cp_value(f, outs[bb], tt["args"][1]) if len(tt["args"]) > 1 else None
+                    seen_calls.add((tt["callee"].rsplit("::", 1)[-1], arg, tt["ln"]))
+            if not seen_calls:
+                continue
+            kinds = {(nm, arg) for nm, arg, ln in seen_calls}
+            ok = kinds == {want[v]}
+            done.add(v)
+            nm, arg, ln = sorted(seen_calls, key=str)[0]
+            ctx.ob("R03.4", f"literal:{chr(v)}", ok, f.loc(ln), f"first byte {chr(v)!r} -> {sorted(kinds, key=str)}")
     ctx.ob("R03.4", "literal:all-three", done == set(want), f.loc(), f"visitor dispatch found for {sorted(chr(x) for x in done)}", nontrivial=False)
     # number classes
     for name in ("parse_number_inplace", "parse_number_visit"):
